@@ -5,6 +5,7 @@ import (
 	"encoding/binary"
 	"fmt"
 	"math"
+	"math/big"
 	"math/bits"
 	"math/rand"
 	"sort"
@@ -504,11 +505,45 @@ func (dsc *dataStoreCommand) addInt(keyName string, delta int64) (value int64, e
 	return
 }
 
-func (dsc *dataStoreCommand) addFloat(keyName string, delta float64) (value float64, valid valueExists) {
+// INCRBYFLOAT / HINCRBYFLOAT arithmetic as redis does it: in extended precision (a 64 bit
+// mantissa, like the long double redis computes with) and printed with 17 fractional digits
+// without trailing zeros, so that 0.1 + 0.2 is 0.3 and not 0.30000000000000004.
+// oldText is "" for a missing value. ok is false when a text is not a number.
+func addDecimalText(oldText, deltaText string) (text string, value float64, ok bool) {
+	sum, _, err := big.ParseFloat(deltaText, 10, 64, big.ToNearestEven)
+	if err != nil {
+		return
+	}
+	if oldText != "" {
+		old, _, err := big.ParseFloat(oldText, 10, 64, big.ToNearestEven)
+		if err != nil {
+			return
+		}
+		if old.IsInf() && sum.IsInf() && old.Sign() != sum.Sign() {
+			return "", math.NaN(), true
+		}
+		sum.Add(old, sum)
+	}
+	value, _ = sum.Float64()
+	if sum.IsInf() {
+		return "", value, true
+	}
+	text = sum.Text('f', 17)
+	if strings.Contains(text, ".") {
+		text = strings.TrimRight(strings.TrimRight(text, "0"), ".")
+	}
+	if text == "-0" {
+		text = "0"
+	}
+	return text, value, true
+}
+
+func (dsc *dataStoreCommand) addFloat(keyName string, delta float64, deltaText string) (text string, value float64, valid valueExists) {
 	dsc.lock()
 	defer dsc.unlock()
 
 	expiration := maxTime
+	oldText := ""
 
 	oldSk, exists := dsc.getKeyObjectUnlocked(keyName)
 	if exists {
@@ -518,25 +553,29 @@ func (dsc *dataStoreCommand) addFloat(keyName string, delta float64) (value floa
 			return
 		}
 
-		var err error
-		value, err = strconv.ParseFloat(string(strBytes), 64)
-		if err != nil {
+		if _, err := strconv.ParseFloat(string(strBytes), 64); err != nil {
 			valid = VALUE_WRONG_FORMAT
 			return
 		}
-
-		value += delta
+		oldText = string(strBytes)
 		expiration = time.Time(oldSk.expiresAt)
-	} else {
-		value = delta
 	}
 
-	bytes := []byte(strconv.FormatFloat(value, 'f', -1, 64))
+	var ok bool
+	text, value, ok = addDecimalText(oldText, deltaText)
+	if !ok {
+		valid = VALUE_WRONG_FORMAT
+		return
+	}
+	if math.IsInf(value, 0) || math.IsNaN(value) {
+		// beyond the float64 range the value is stored as +Inf / -Inf, as before
+		text = strconv.FormatFloat(value, 'f', -1, 64)
+	}
 
 	newSk := dsc.ds.newStoreKeyUnlocked(keyName)
 	newSk.flags = FLAG_KEY_TYPE_STRING
 	newSk.expiresAt = expiration
-	newSk.payload = bytes
+	newSk.payload = []byte(text)
 
 	return
 }
@@ -2203,7 +2242,7 @@ func (dsc *dataStoreCommand) fieldAddInt(keyName, fieldName string, delta int64)
 	return
 }
 
-func (dsc *dataStoreCommand) fieldAddFloat(keyName, fieldName string, delta float64) (value float64, ve valueExists) {
+func (dsc *dataStoreCommand) fieldAddFloat(keyName, fieldName string, delta float64, deltaText string) (value float64, ve valueExists) {
 	value = delta
 
 	dsc.lock()
@@ -2211,6 +2250,10 @@ func (dsc *dataStoreCommand) fieldAddFloat(keyName, fieldName string, delta floa
 
 	if math.IsInf(delta, 0) || math.IsNaN(delta) {
 		ve = VALUE_OVERFLOW
+		return
+	}
+	if _, _, ok := addDecimalText("", deltaText); !ok {
+		ve = VALUE_WRONG_FORMAT
 		return
 	}
 
@@ -2233,26 +2276,31 @@ func (dsc *dataStoreCommand) fieldAddFloat(keyName, fieldName string, delta floa
 		newSk.expiresAt = maxTime
 	}
 
+	oldText := ""
 	oldVal, exists := m.get(fieldName)
 	if exists {
-		var err error
-		value, err = strconv.ParseFloat(oldVal.(string), 64)
-		if err != nil {
+		if _, err := strconv.ParseFloat(oldVal.(string), 64); err != nil {
 			ve = VALUE_WRONG_FORMAT
 			return
 		}
-		value += delta
-		if math.IsInf(value, 0) || math.IsNaN(value) {
-			ve = VALUE_OVERFLOW
-			return
-		}
-		dsc.modifiedUnlocked(keyName)
+		oldText = oldVal.(string)
 		ve = VALUE_EXISTS
 	} else {
 		ve = VALUE_DOESNT_EXIST
 	}
 
-	m.store(fieldName, strconv.FormatFloat(value, 'f', -1, 64))
+	text, sum, ok := addDecimalText(oldText, deltaText)
+	if !ok {
+		ve = VALUE_WRONG_FORMAT
+		return
+	}
+	value = sum
+	if math.IsInf(value, 0) || math.IsNaN(value) {
+		ve = VALUE_OVERFLOW
+		return
+	}
+
+	m.store(fieldName, text)
 	dsc.modifiedUnlocked(keyName)
 	return
 }
